@@ -71,6 +71,16 @@ def check(case):
         s = abs(a[1][0]) + abs(a[1][1])
         if abs(a[1][0] - b[1][1]) > 1e-5 * s + 1e-12 or abs(a[1][1] - b[1][0]) > 1e-5 * s + 1e-12:
             fails.append("calculate_partial_fluxes (%s, %s mode, explicit permeances in %s): fluxes of the relabelled problem are not exchanged: %r vs %r" % (model, mode, un, tuple(map(float, a[1])), tuple(map(float, b[1]))))
+    # diffusion curve built from these fluxes: the permeances it derives (and its selectivity) are exchanged too
+    if a[0] == b[0] == 'ok' and model == 'NRTL':
+        try:
+            from pyvaporation.diffusion_curve import DiffusionCurve
+            ca = DiffusionCurve(mixture=mix, membrane_name='m', feed_temperature=T, feed_compositions=[Composition(x, 'weight')], partial_fluxes=[(float(a[1][0]), float(a[1][1]))], permeate_temperature=Tp, permeate_pressure=pp)
+            cb = DiffusionCurve(mixture=mixb, membrane_name='m', feed_temperature=T, feed_compositions=[Composition(1 - x, 'weight')], partial_fluxes=[(float(a[1][1]), float(a[1][0]))], permeate_temperature=Tp, permeate_pressure=pp)
+            ka, kb = ca.permeances[0], cb.permeances[0]
+            if not (close(ka[0].value, kb[1].value, 1e-7) and close(ka[1].value, kb[0].value, 1e-7)):
+                fails.append("DiffusionCurve from fluxes (%s mode): permeances of the relabelled curve are not exchanged: %r vs %r" % (mode, (float(ka[0].value), float(ka[1].value)), (float(kb[0].value), float(kb[1].value))))
+        except (ValueError, ZeroDivisionError): pass
     # ideal process models
     func = case.get('func')
     if func:
